@@ -1,6 +1,8 @@
 /* Scripted fake formatter for C15. Behaviour is encoded in the basename of argv[0]:
  *     ff-<stdin>-<stdout>-<term>
- *  stdin : close | none | half | all | slow | stream | shead
+ *  stdin : close | none | half | all | slow | stream | shead | allerr | errall
+ *          (allerr = read everything, then write 256 KiB of diagnostics to stderr before any output; errall = the
+ *           diagnostics come first, before anything is read: a formatter that is noisy on stderr)
  *          (stream = echo every chunk to stdout as soon as it is read, like `cat`: if nobody drains stdout the child stops
  *           reading stdin; shead = the same for the first 100 KB, then stop reading, like `head -c`)
  *  stdout: nothing | half | full | fullbad | bad | reformat
@@ -17,6 +19,10 @@ static char *buf; static size_t len, cap;
 static void put(const char *p, size_t n) {
     if (len + n > cap) { cap = (len + n) * 2 + 4096; buf = realloc(buf, cap); }
     memcpy(buf + len, p, n); len += n;
+}
+static void noise(void) {
+    char line[1024]; memset(line, 'w', sizeof line); memcpy(line, "warning: ", 9); line[sizeof line - 1] = '\n';
+    for (int i = 0; i < 256; i++) { const char *p = line; size_t n = sizeof line; while (n) { ssize_t k = write(2, p, n); if (k <= 0) return; p += k; n -= (size_t)k; } }
 }
 static void wr(const char *p, size_t n) {
     while (n) { ssize_t k = write(1, p, n); if (k <= 0) return; p += k; n -= (size_t)k; }
@@ -39,6 +45,12 @@ int main(int argc, char **argv) {
         ssize_t k; size_t total = 0, lim = !strcmp(in, "shead") ? 100 * 1024 : (size_t)-1;
         while (total < lim && (k = read(0, tmp, sizeof tmp)) > 0) { wr(tmp, (size_t)k); total += (size_t)k; }
         if (total >= lim) close(0);
+    } else if (!strcmp(in, "allerr")) {
+        ssize_t k; while ((k = read(0, tmp, sizeof tmp)) > 0) put(tmp, (size_t)k);
+        noise();
+    } else if (!strcmp(in, "errall")) {
+        noise();
+        ssize_t k; while ((k = read(0, tmp, sizeof tmp)) > 0) put(tmp, (size_t)k);
     } else if (!strcmp(in, "slow")) {
         ssize_t k; while ((k = read(0, tmp, 4096)) > 0) { put(tmp, (size_t)k); usleep(200); }
     } else { ssize_t k; while ((k = read(0, tmp, sizeof tmp)) > 0) put(tmp, (size_t)k); }
